@@ -289,7 +289,10 @@ class Ctx:
             body = ';\n  '.join(items[k:k + chunk])
             with open(fn, 'w') as f:
                 f.write(header + '\n')
-                f.write('Definition the_cases := [\n  %s\n].\n' % body)
+                # the element type is the checker's domain (a chunk in which some list component is [] in EVERY case would
+                # otherwise leave that component's type undetermined)
+                f.write('Definition the_cases : list (ltac:(let T := type of (%s) in match T with ?A -> _ => exact A end)) := [\n  %s\n].\n'
+                        % (checker, body))
                 f.write('Definition bad_indices := '
                         'map fst (filter (fun p => negb (%s (snd p))) (combine (seq 0 (List.length the_cases)) the_cases)).\n' % checker)
                 f.write('Eval vm_compute in (List.length the_cases, bad_indices).\n')
